@@ -13,6 +13,7 @@ import StirVerif.C07.ProofsRun
 import StirVerif.C07.ProofsPost
 import StirVerif.C07.ProofsLogLikCast
 import StirVerif.C07.ProofsZeroEnd
+import StirVerif.C07.ProofsSlots
 import Mathlib.Data.Fin.VecNotation
 import Mathlib.Tactic.FinCases
 import Mathlib.Algebra.BigOperators.Fin
@@ -78,7 +79,10 @@ theorem C07_nonneg_preserved_voxel (m : MapModel) (n : Nat) (small : Rat) (limit
 
 /-- … a whole sub-iteration, *arbitrary* inter-update / inter-iteration filters included (the positivity thresholding
     chained behind them makes their output strictly positive): if the data for this image are non-negative and
-    consistent (`DataOK`), a non-negative image is mapped to a finite non-negative image. -/
+    consistent (`DataOK`), a non-negative image is mapped to a finite non-negative image.
+    (`c.interUpdateFilter` / `c.interIterationFilter` are arbitrary functions: since round 4 the model of the filter SLOTS
+    (`Slots`, `C07_filter_slots_any_number_of_setups` below) ties this theorem to objects whose slots hold the user's own
+    `ChainedDataProcessor`s and that were set up several times, and the correspondence check exercises exactly those.) -/
 theorem C07_nonneg_preserved (c : Cfg) (k : Nat) (img : Img)
     (hmin : 0 ≤ c.minRel) (hmm : c.minRel ≤ c.maxRel) (himg : ∀ x ∈ img, (0 : Rat) ≤ x)
     (hdata : DataOK (c.gps (subsetNum k c.startSubset c.numSubsets) img) (c.sens (subsetNum k c.startSubset c.numSubsets))) :
@@ -91,7 +95,8 @@ theorem C07_nonneg_data {nb nv : ℕ} (P : Fin nb → Fin nv → ℚ) (y a eff :
     (hl : ∀ j, 0 ≤ lam j) : DataOK (List.ofFn (gpsSpec P y a S lam)) (List.ofFn (sensSpec P eff S)) :=
   dataOK_spec P y a eff S lam hP hy ha he hl
 
-/-- … and every iterate of a whole run (any number of sub-iterations, any start) is non-negative and finite. -/
+/-- … and every iterate of a whole run (any number of sub-iterations, any start) is non-negative and finite
+    (user filters of any kind, user chains included: see `C07_filter_slots_any_number_of_setups`). -/
 theorem C07_nonneg_run (c : Cfg) (hmin : 0 ≤ c.minRel) (hmm : c.minRel ≤ c.maxRel)
     (hdata : ∀ S img, (∀ x ∈ img, (0 : Rat) ≤ x) → DataOK (c.gps S img) (c.sens S))
     (start last : Nat) (img : Img) (himg : ∀ x ∈ img, (0 : Rat) ≤ x) :
@@ -463,6 +468,100 @@ example : (reconstruct { restartWitness with enforceInitialPositivity := false }
   norm_num [initialData, reconstruct, runFrom, subIter, updateEstimate, restartWitness, subsetNum, smallValue, maxElem,
     divideSmallNum, interUpdateFiltered, zip4With, updVoxel, denom, divide1, absR, mulExt, thresholdUpperLower, allFin,
     endOfIteration, setUp, List.replicate]
+
+/-! ## The filter slots as objects: user chains (`Chained Data Processor`), repeated `set_up`
+
+`Filt` / `Slots` / `updateEstimateS` / `endOfIterationS` / `subIterS` (Model.lean) transcribe what the class holds and does:
+three `DataProcessor` slots, of which EVERY call of `OSMAPOSLReconstruction::set_up` re-wraps the inter-update and the
+inter-iteration one into `ChainedDataProcessor(content, ThresholdMinToSmallPositiveValueDataProcessor)` without looking at
+the content, and `update_estimate` / `end_of_iteration_processing` apply the slot's object as it is.  The correspondence
+check compares THIS model with the real class for user filters that are single registered filters, user-made
+`ChainedDataProcessor`s of 2 and 3 members (smoothing + sharpening in both orders, with a thresholding member, nested, with a
+null member), given through the setters and parsed from parameter files, with 1-3 consecutive `set_up` calls. -/
+
+/-- "inter-update / inter-iteration filters off and on (positivity only)": for EVERY content of the three slots (single
+    filters, user chains of any shape, thresholding members, null members, empty slots), after ANY number `n ≥ 1` of
+    consecutive `set_up` calls on the object, a sub-iteration of the object is the sub-iteration of the model
+    `subIterPost` with the slots' original contents as user filters — each followed by exactly one positivity thresholding
+    (the `n` thresholding stages that `n` calls stack up act as one).  Hence every theorem of this file about
+    `updateEstimate` / `subIter` / `subIterPost` / `reconstruct…` with arbitrary `interUpdateFilter` /
+    `interIterationFilter` (non-negativity of every iterate, restart, post-filter at the last sub-iteration only) is a
+    theorem about objects holding user chains and set up several times. -/
+theorem C07_filter_slots_any_number_of_setups (c : Cfg) (s : Slots) (n : Nat) (hn : 1 ≤ n) (last k : Nat) (img : Img) :
+    updateEstimateS c (Slots.setUpN c n s) k img = updateEstimate (Cfg.ofSlots c s) k img ∧
+    subIterS c (Slots.setUpN c n s) last k img = subIterPost (Cfg.ofSlots c s) s.post.toOption last k img :=
+  ⟨updateEstimateS_setUpN c s n hn k img, subIterS_setUpN c s n hn last k img⟩
+
+/-- "with filters on, non-negative images stay non-negative", the filter stage: whatever data processor the user put
+    into an inter-update / inter-iteration slot (`f` is any non-null `Filt`: a filter with negative lobes, a user
+    `ChainedDataProcessor`, a chain of chains …) and whatever image comes in, after `n ≥ 1` calls of `set_up` with the
+    filter switched on (`interval > 0`) the slot's object delivers a strictly positive image — the thresholding stage is
+    added for EVERY kind of content.  (A `set_up` that skipped the wrapping for a content that is a `ChainedDataProcessor`
+    would make this false: `C07_unwrapped_user_chain_goes_negative` below.) -/
+theorem C07_filter_slot_output_positive (interval n : Nat) (hi : 0 < interval) (hn : 1 ≤ n) (f : Filt)
+    (hf : f.isNull = false) (img : Img) : ∀ x ∈ (setUpSlotN interval n f).apply img, 0 < x :=
+  setUpSlotN_pos interval n hi hn f hf img
+
+/-- … and the sub-iteration as a whole, for an object with any user slots after `n ≥ 1` calls of `set_up` (before the last
+    sub-iteration, or without post-filter: the post-filter is the user's and is not thresholded): a non-negative image is
+    mapped to a finite non-negative image (data non-negative and consistent, as in `C07_nonneg_preserved`). -/
+theorem C07_nonneg_preserved_slots (c : Cfg) (s : Slots) (n : Nat) (hn : 1 ≤ n) (last k : Nat) (img : Img)
+    (hpost : s.post.isNull = true ∨ k ≠ last)
+    (hmin : 0 ≤ c.minRel) (hmm : c.minRel ≤ c.maxRel) (himg : ∀ x ∈ img, (0 : Rat) ≤ x)
+    (hdata : DataOK (c.gps (subsetNum k c.startSubset c.numSubsets) img) (c.sens (subsetNum k c.startSubset c.numSubsets))) :
+    ∃ img', subIterS c (Slots.setUpN c n s) last k img = some img' ∧ ∀ x ∈ img', (0 : Rat) ≤ x := by
+  rw [subIterS_setUpN c s n hn]
+  have key : subIterPost (Cfg.ofSlots c s) s.post.toOption last k img = subIter (Cfg.ofSlots c s) k img := by
+    rcases hpost with h | h
+    · simp only [Filt.toOption, h, if_true]
+      unfold subIterPost subIter
+      cases allFin (updateEstimate (Cfg.ofSlots c s) k img) with
+      | none => rfl
+      | some im => simp [endOfIterationPost_none]
+    · exact subIterPost_ne _ _ last k img h
+  rw [key]
+  exact subIter_nonneg (Cfg.ofSlots c s) k img hmin hmm himg hdata
+
+/-- a user chain with a sharpening-like second member: `x ↦ x + 1` followed by `x ↦ x − 3` -/
+def exUserChain : Filt := .chain (.user (List.map (· + 1))) (.user (List.map (· - 3)))
+
+/-- non-vacuity, computed: the chain alone turns the positive image `[1, 4]` into `[-1, 2]`; in a slot with interval 1
+    after one, two and three `set_up` calls the object delivers `[2·10⁻⁶, 2]` -/
+example : exUserChain.apply [1, 4] = [-1, 2] ∧
+    (setUpSlotN 1 1 exUserChain).apply [1, 4] = [1 / 500000, 2] ∧
+    (setUpSlotN 1 2 exUserChain).apply [1, 4] = [1 / 500000, 2] ∧
+    (setUpSlotN 1 3 exUserChain).apply [1, 4] = [1 / 500000, 2] := by
+  refine ⟨?_, ?_, ?_, ?_⟩ <;>
+  norm_num [exUserChain, setUpSlotN, setUpSlot, Filt.isNull, Filt.apply, thresholdMinToSmallPositive, minPositive, smallNum]
+
+/-- **negative witness for a guarded `set_up`** ("do not chain the thresholding again when the slot already holds a
+    `ChainedDataProcessor`"): such a `set_up` leaves the user chain `exUserChain` as it is, and the slot then delivers a
+    negative value for the positive image `[1, 4]` — the wrapping must not depend on the kind of the content. -/
+theorem C07_unwrapped_user_chain_goes_negative :
+    (∃ x ∈ exUserChain.apply [1, 4], x < 0) ∧ ∀ x ∈ (setUpSlot 1 exUserChain).apply [1, 4], 0 < x := by
+  constructor
+  · exact ⟨-1, by norm_num [exUserChain, Filt.apply], by norm_num⟩
+  · exact setUpSlotN_pos 1 1 (by norm_num) (le_refl _) exUserChain rfl [1, 4]
+
+/-! ## `divide_and_truncate`: the quotient `y / (A_S lambda + a)` in viewgram space -/
+
+/-- "A_S^T[y / (A_S lambda + a)]": the quotient that `divide_and_truncate` leaves in the numerator viewgram is, for EVERY
+    numerator and denominator (zeros, negatives, `0/0`, `x/0` included), a number in `[0, max_quotient]` — no division by
+    zero is ever made (so a NaN or a negative quotient in a viewgram cannot come from this function) … -/
+theorem C07_divide_and_truncate_bounds (num den : List Rat) :
+    ∀ q ∈ divideAndTruncate num den, 0 ≤ q ∧ q ≤ maxQuotient :=
+  divideAndTruncate_bounds num den
+
+/-- … a bin without counts gives `0` whatever the denominator (`0/0 = 0`), and on the regular region
+    (`small_value < y ≤ max_quotient · ȳ`) the quotient is `y / ȳ`: the `ratioRow` that `emExplicit` back projects. -/
+theorem C07_divide_and_truncate_regular (num : List Rat) (y ybar : Rat) :
+    divideAndTruncate1 (dtSmallValue num) 0 ybar = 0 ∧
+    (dtSmallValue num < y → y ≤ maxQuotient * ybar → divideAndTruncate1 (dtSmallValue num) y ybar = y / ybar) :=
+  ⟨divideAndTruncate1_zero _ _ (dtSmallValue_nonneg num), divideAndTruncate1_regular _ _ _⟩
+
+/-- non-vacuity, computed: numerator `[0, 4, 8, 2]`, denominator `[0, 2, 0, 1]`: `0/0 → 0`, `4/2 → 2`, `8/0 → 10000`, `2/1 → 2` -/
+example : divideAndTruncate [0, 4, 8, 2] [0, 2, 0, 1] = [0, 2, 10000, 2] := by
+  norm_num [divideAndTruncate, divideAndTruncate1, dtSmallValue, dtSmallNum, maxQuotient, maxElem, stdMax, List.zipWith]
 
 /-! ## Non-vacuity: concrete instances satisfying the hypotheses -/
 
